@@ -62,9 +62,16 @@ class Gen:
     # ---- parts --------------------------------------------------------------------------
     def header(self, version=None):
         r = self.r
+        import attr
+        fld = {f.name: f for f in attr.fields(self.H.FileHeader)}      # the live validator ranges, not copies of them
+
+        def rng(nm, lo, hi):
+            v = fld[nm].validator
+            return (int(getattr(v, "minimum", lo)), int(getattr(v, "maximum", hi)))
         return self.H.FileHeader(
             version=version or r.choice([1, 2]),
-            channels=self.edge(1, 57), height=self.edge(1, 300001), width=self.edge(1, 300001),
+            channels=self.edge(*rng("channels", 1, 56)), height=self.edge(*rng("height", 1, 300000)),
+            width=self.edge(*rng("width", 1, 300000)),
             depth=r.choice([1, 8, 16, 32]), color_mode=r.choice(list(self.C.ColorMode)))
 
     def resources(self, encoding, n=None, typed=True):
